@@ -62,7 +62,7 @@ func amf0Contract(e *abs.Engine) func(p *abs.Path, call *ssa.CallCommon, callee 
 }
 
 func runC03abs(c *Ctx) {
-	P, R := c.P, c.R
+	R := c.R
 	R.Require("C03.ctl", 12)
 	R.Require("C03.size", 12)
 	l := newLayout(c, "C03.ctl")
@@ -106,7 +106,12 @@ func runC03abs(c *Ctx) {
 	}
 	l.decoder("rtmp", "(*UserControl).UnmarshalBinary", ucDec, fresh, recvOrRet, 0)
 
-	// ---- C03.size: len(MarshalBinary()) == Size() for every packet type and optional-member partition
+	checkPacketSizes(c, "C03.size")
+}
+
+// checkPacketSizes: len(MarshalBinary()) == Size() for every packet type and optional-member partition.
+func checkPacketSizes(c *Ctx, rule string) {
+	P, R := c.P, c.R
 	e := abs.NewEngine(P)
 	contract := amf0Contract(e)
 	e.Contract = func(p *abs.Path, fr *abs.Frame, call *ssa.CallCommon, callee *ssa.Function, args []abs.Value) (abs.Value, bool) {
@@ -172,11 +177,11 @@ func runC03abs(c *Ctx) {
 				}
 			}
 			if len(problems) == 0 {
-				R.OKf("C03.size", key, P.Pos(mf.Pos()), fmt.Sprintf("MarshalBinary yields exactly Size() bytes on all %d path(s)", len(res)), nil)
+				R.OKf(rule, key, P.Pos(mf.Pos()), fmt.Sprintf("MarshalBinary yields exactly Size() bytes on all %d path(s)", len(res)), nil)
 			} else if allUndecided(dedup(problems)) {
-				R.Unknown("C03.size", key, P.Pos(mf.Pos()), problems[0], map[string]interface{}{"problems": dedup(problems)})
+				R.Unknown(rule, key, P.Pos(mf.Pos()), problems[0], map[string]interface{}{"problems": dedup(problems)})
 			} else {
-				R.Fail("C03.size", key, P.Pos(mf.Pos()), problems[0], map[string]interface{}{"problems": dedup(problems)})
+				R.Fail(rule, key, P.Pos(mf.Pos()), problems[0], map[string]interface{}{"problems": dedup(problems)})
 			}
 		}
 	}
